@@ -9,7 +9,7 @@
    implementation by the round-trip and history oracles of the check. *)
 From Coq Require Import ZArith QArith Qabs NArith Arith List String Ascii Bool.
 From Inkfem Require Import Model.Types Model.Regex Gen.GenRegex Model.Read Model.ReadPre Proofs.ReadPreProofs
-  Model.Template Gen.GenTemplates Proofs.TemplateProofs.
+  Model.Template Gen.GenTemplates Proofs.TemplateProofs Num.NumOps Model.Assemble Proofs.SystemProofs Proofs.RecordedSystem.
 Import ListNotations.
 Local Open Scope string_scope.
 Local Close Scope Q_scope.
@@ -49,6 +49,36 @@ Theorem C12_preprocessed_file_is_the_documented_layout : forall d : pre_doc,
   render tmpl_preprocess (pre_ctx d) = spec_preprocess d.
 Proof. exact preprocess_template_renders_the_documented_layout. Qed.
 Print Assumptions C12_preprocessed_file_is_the_documented_layout.
+
+(* "solves to the same result": the system of equations is a function of what the file records - per bar its length,
+   direction, material and section values, per slice node its position, its three loads and its equation numbers.  Two
+   sliced structures that agree on those (the one solve slices itself and the one read back from the file: stage P
+   compares exactly these values on every run) get the same matrix, the same load vector and the same solutions,
+   whatever else differs (names, the user's loads, coordinates, end links) *)
+Theorem C12_what_the_file_records_determines_the_system_and_its_solutions :
+  forall (n : nat) (bars bars' : list (pbar Q)) (sup : list nat) (u : list Q),
+  Forall2 recorded_alike bars bars' ->
+  (forall i j, k_final (all_contribs bars') sup i j = k_final (all_contribs bars) sup i j) /\
+  (forall i, (f_final (all_fterms bars') sup i == f_final (all_fterms bars) sup i)%Q) /\
+  (solves n bars sup u <-> solves n bars' sup u).
+Proof. exact recorded_values_determine_the_system. Qed.
+Print Assumptions C12_what_the_file_records_determines_the_system_and_its_solutions.
+
+(* Non-vacuity: a sliced bar and another that differs in what the file does not use (coordinates, the user's loads, links) *)
+Example C12_recorded_alike_relates_different_bars :
+  let b := {| b_n1 := 0; b_n2 := 1; b_l1 := rigid; b_l2 := rigid; b_x1 := 0; b_y1 := 0; b_x2 := 3; b_y2 := 4;
+              b_L := 5; b_c := 3 # 5; b_s := 4 # 5; b_E := 1; b_A := 1; b_I := 1; b_S := 1; b_rho := 0;
+              b_cl := []; b_dl := [] |}%Q in
+  let b' := {| b_n1 := 7; b_n2 := 9; b_l1 := rigid; b_l2 := rigid; b_x1 := 100; b_y1 := -20; b_x2 := 103; b_y2 := -16;
+              b_L := 5; b_c := 3 # 5; b_s := 4 # 5; b_E := 1; b_A := 1; b_I := 1; b_S := 2; b_rho := 3;
+              b_cl := [ {| cl_term := FY; cl_local := true; cl_t := 1 # 2; cl_v := -100 |} ]; b_dl := [] |}%Q in
+  let nd t x (f : Q) := {| pn_t := t; pn_x := x; pn_y := 0; pn_ext := (0, f, 0); pn_left := (0, 0, 0); pn_right := (0, 0, 0) |}%Q in
+  recorded_alike {| pb_bar := b; pb_nodes := [nd 0 0 (1 # 2); nd 1 5 (-3)]%Q; pb_dofs := [(0, 1, 2)%nat; (3, 4, 5)%nat] |}
+                 {| pb_bar := b'; pb_nodes := [nd 0 100 (2 # 4); nd 1 103 (-6 # 2)]%Q; pb_dofs := [(0, 1, 2)%nat; (3, 4, 5)%nat] |}.
+Proof.
+  constructor; try reflexivity. cbn [pb_nodes].
+  repeat constructor; cbn; reflexivity.
+Qed.
 
 (* a small preprocessed file, read inside Coq *)
 Example C12_reads_a_preprocessed_file :
